@@ -771,6 +771,14 @@ def run(ctx: Ctx) -> Outcome:
 
     # ---- model side
     if use_model:
+        # the hypotheses of `every_styled_element_draws` (decidable), evaluated by the driver on every case: where they hold,
+        # the implementation must draw (or raise the one rx/ry rejection)
+        hyp_answers = common.model([dict(r, op="svg.hyp") for r in seq[0]], driver="Svg")
+        for (case, impl), ans in zip(seq[1], hyp_answers):
+            holds = ans.get("ok")
+            out.hit(f"theorem-domain:every_styled_element_draws:{'holds' if holds else 'outside'}")
+            if holds and "raise" in impl and impl["raise"] != "ValueError":
+                out.disagree("theorem-domain", {k: case[k] for k in ("dc", "kind", "cls", "variant")} | {"elems": case["elems"]}, impl, "hypotheses hold: must draw")
         seq_answers = common.model(seq[0], driver="Svg")
         for (case, impl), ans in zip(seq[1], seq_answers):
             m = ans.get("ok")
